@@ -1,24 +1,154 @@
-"""Which leaf helpers each property rests on (see refspec.py).  One obligation per (property, helper)."""
+"""Which functions each property rests on beyond what its own rules take apart (see refspec.py).
+
+One obligation per (property, function): the function's summary agrees with its reference in sa/specs.  A function is listed
+under a property only when the property's behaviour depends on what the function computes (a change of its result can break the
+property); orchestrating functions shared by many properties (`call_sample_genotypes`, `call_locus`) are deliberately not listed:
+they are covered by the targeted rules of each property, and a blanket comparison would report a change under properties it does
+not concern."""
 from __future__ import annotations
 from . import refspec
 
 J = 'mchap.jitutils'
+AM = 'mchap.assemble.'
+CM = 'mchap.calling.'
+PM = 'mchap.pedigree.'
+BC = 'mchap.application.baseclass'
+
+LOGSPACE = ['add_log_prob', 'sum_log_probs', 'normalise_log_probs', 'random_choice']
+ASSEMBLE_LLK = (AM + 'likelihood', ['log_likelihood', 'log_likelihood_structural_change', 'new_log_likelihood_cache',
+                                   'log_likelihood_cached', 'log_likelihood_structural_change_cached'])
+ARRAYMAP = (AM + 'arraymap', ['new', 'set', 'get'])
+MSET_COUNT = ('mchap.mset', ['unique_idx', 'unique', 'count', 'unique_counts'])
+
 HELPERS = {
-    'C01': [(J, ['random_choice', 'array_equal', 'count_haplotype_copies', 'get_haplotype_dosage', 'set_haplotype_dosage'])],
-    'C02': [(J, ['normalise_log_probs', 'sum_log_probs', 'add_log_prob', 'random_choice'])],
-    'C03': [(J, ['add_log_prob', 'increment_genotype'])],
-    'C05': [(J, ['ln_equivalent_permutations'])],
-    'C08': [(J, ['seed_numba'])],
+    # assemble sampler: kernels, their option generators/counters, the prior and likelihood they evaluate, the multiset helpers
+    # that make the proposal ratio a function of the genotype as a multiset
+    'C01': [(J, ['random_choice', 'array_equal', 'count_haplotype_copies', 'get_haplotype_dosage', 'set_haplotype_dosage',
+                 'structural_change', 'ln_equivalent_permutations']),
+            (AM + 'mutation', ['base_step', 'compound_step']),
+            (AM + 'structural', ['_label_haplotypes', '_interval_inverse_mask', 'random_breaks', 'recombination_step_n_options',
+                                 'recombination_step_options', 'dosage_step_n_options', 'dosage_step_options',
+                                 'haplotype_segment_labels', 'interval_step', 'compound_step']),
+            (AM + 'tempering', ['chain_swap_acceptance', 'chain_swap_step']),
+            (AM + 'prior', ['log_genotype_null_prior', 'log_dirichlet_multinomial_pmf', 'log_genotype_prior']),
+            (AM + 'likelihood', ['log_likelihood', 'log_likelihood_structural_change']),
+            (AM + 'mcmc', ['_denovo_assembler'])],
+    'C02': [(J, LOGSPACE),
+            (CM + 'mcmc', ['mh_options', 'gibbs_options', 'compound_step', 'mcmc_sampler']),
+            (CM + 'prior', ['calculate_alphas', 'log_genotype_allele_prior', 'log_genotype_prior']),
+            (CM + 'likelihood', ['log_likelihood_alleles', 'log_likelihood_alleles_cached']),
+            (CM + 'utils', ['count_allele', 'allelic_dosage']),
+            (CM + 'classes', ['CallingMCMC.fit'])],
+    'C03': [(J, ['add_log_prob', 'increment_genotype', 'genotype_alleles_as_index', 'comb_with_replacement']),
+            (CM + 'exact', ['_call_posterior_mode', '_genotype_support_log_joint', '_posterior_allele_frequencies', 'posterior_mode',
+                            '_genotype_likelihoods', 'genotype_likelihoods', 'genotype_posteriors', 'posterior_allele_frequencies',
+                            'alternate_dosage_posteriors']),
+            (CM + 'prior', ['calculate_alphas', 'log_genotype_prior']),
+            (CM + 'utils', ['allelic_dosage'])],
+    'C04': [(J, ['structural_change']),
+            (AM + 'likelihood', ['log_likelihood', 'log_likelihood_structural_change']),
+            (CM + 'likelihood', ['log_likelihood_alleles']),
+            (PM + 'likelihood', ['log_likelihood_alleles_cached'])],
+    'C05': [(J, ['ln_equivalent_permutations']),
+            (AM + 'prior', ['log_genotype_null_prior', 'log_dirichlet_multinomial_pmf', 'log_genotype_prior']),
+            (CM + 'prior', ['calculate_alphas', 'log_genotype_allele_prior', 'log_genotype_prior']),
+            (CM + 'utils', ['count_allele', 'allelic_dosage'])],
+    'C06': [('mchap.io.bam', ['extract_read_variants', 'encode_read_alleles', 'encode_read_distributions', 'extract_sample_ids']),
+            ('mchap.encoding.character.transcode', ['as_allelic']),
+            ('mchap.encoding.integer.transcode', ['as_probabilistic']),
+            ('mchap.io.util', ['qual_of_char', 'prob_of_qual']),
+            (BC, ['program.encode_sample_reads']),
+            MSET_COUNT,
+            ('mchap.io.loci', ['Locus.validate_reference_alleles', 'Locus.set_sequence', 'Locus.set_variants', 'Locus.alleles',
+                               'Locus.count_alleles', 'Locus.positions'])],
+    'C07': [('mchap.io.vcf.records', ['format_info_field', 'format_sample_field', 'format_record']),
+            ('mchap.io.vcf.util', ['vcfstr']),
+            (BC, ['program.sumarise_vcf_record', 'program._locus_data', 'LocusAssemblyData._sampledata_as_list',
+                  'LocusAssemblyData.format_vcf_record']),
+            (J, ['natural_log_to_log10', 'genotype_alleles_as_index']),
+            (CM + 'utils', ['posterior_as_array']),
+            (CM + 'classes', ['PosteriorGenotypeAllelesDistribution.as_array', 'GenotypeAllelesMultiTrace.relabel']),
+            ('mchap.application.assemble', ['_genotype_as_alleles', '_genotype_posterior_as_array']),
+            ('mchap.io.loci', ['Locus._template_sequence', 'Locus.format_haplotypes'])],
+    'C08': [(J, ['seed_numba']),
+            (BC, ['program.call_locus', 'program._assemble_loci_wrapped', 'program._run_stdout_single_core', 'program._worker',
+                  'program._writer', 'program._run_stdout_multi_core', 'program.run_stdout']),
+            (AM + 'mcmc', ['DenovoMCMC.fit']),
+            (CM + 'classes', ['CallingMCMC.fit']),
+            (PM + 'classes', ['PedigreeCallingMCMC.fit'])],
+    'C09': [ARRAYMAP, ASSEMBLE_LLK,
+            (CM + 'likelihood', ['log_likelihood_alleles_cached']),
+            (PM + 'likelihood', ['log_likelihood_alleles_cached']),
+            (AM + 'mcmc', ['_denovo_assembler']),
+            (AM + 'tempering', ['chain_swap_step'])],
+    'C10': [(BC, ['program.encode_sample_reads']),
+            ('mchap.application.arguments', ['parse_sample_pools', 'parse_sample_bam_paths']),
+            MSET_COUNT],
     'C11': [(J, ['_greatest_common_denominatior', '_comb', 'comb', '_comb_with_replacement', 'comb_with_replacement',
-                 'genotype_alleles_as_index', 'index_as_genotype_alleles', 'increment_genotype'])],
-    'C15': [(J, ['sample_snv_alleles'])],
-    'C17': [(J, ['add_log_prob'])],
-    'C18': [(J, ['normalise_log_probs', 'sum_log_probs', 'add_log_prob', 'random_choice'])],
+                 'genotype_alleles_as_index', 'index_as_genotype_alleles', 'increment_genotype']),
+            ('mchap.combinatorics', ['count_unique_genotypes']),
+            (CM + 'utils', ['posterior_as_array'])],
+    'C12': [('mchap.io.loci', ['Locus._template_sequence', 'Locus.format_haplotypes', 'Locus.alleles', 'Locus.positions',
+                               'LocusPrior.encode_haplotypes', 'LocusPrior.from_variant_record', '_merge_snps']),
+            ('mchap.encoding.character.transcode', ['as_allelic']),
+            ('mchap.encoding.integer.transcode', ['vector_as_characters', 'as_characters']),
+            ('mchap.application.call_baseclass', ['program.loci'])],
+    'C13': [(AM + 'haplotype_calling', ['call_posterior_haplotypes']),
+            (AM + 'classes', ['PosteriorGenotypeDistribution.allele_frequencies']),
+            ('mchap.mset', ['unique_idx', 'unique', 'categorize']),
+            ('mchap.application.assemble', ['_genotype_as_alleles', '_genotype_posterior_as_array'])],
+    'C14': [(AM + 'classes', ['PosteriorGenotypeDistribution.mode', 'PosteriorGenotypeDistribution.mode_genotype_support',
+                              'PosteriorGenotypeDistribution.allele_frequencies', 'GenotypeSupportDistribution.alleles',
+                              'GenotypeSupportDistribution.mode_genotype', 'GenotypeSupportDistribution.call_genotype_support',
+                              'GenotypeMultiTrace.__post_init__', 'GenotypeMultiTrace.burn', 'GenotypeMultiTrace.posterior',
+                              'GenotypeMultiTrace.split', 'GenotypeMultiTrace.replicate_incongruence']),
+            (CM + 'classes', ['_posterior_frequencies', 'GenotypeAllelesMultiTrace.relabel', 'GenotypeAllelesMultiTrace.burn',
+                              'GenotypeAllelesMultiTrace.posterior', 'GenotypeAllelesMultiTrace.split',
+                              'GenotypeAllelesMultiTrace.replicate_incongruence', 'GenotypeAllelesMultiTrace.posterior_frequencies',
+                              'PosteriorGenotypeAllelesDistribution.mode', 'PosteriorGenotypeAllelesDistribution.as_array']),
+            (PM + 'classes', ['_trace_incongruence', 'PedigreeAllelesMultiTrace.burn', 'PedigreeAllelesMultiTrace.individual',
+                              'PedigreeAllelesMultiTrace.incongruence']),
+            (CM + 'utils', ['posterior_as_array']),
+            ('mchap.mset', ['unique_idx', 'unique', 'categorize', 'count', 'unique_counts', 'intercept', 'union']),
+            ('mchap.encoding.integer.sequence', ['argsort', 'sort']),
+            (J, ['genotype_alleles_as_index'])],
+    'C15': [(J, ['sample_snv_alleles', 'random_choice', 'genotype_alleles_as_index']),
+            (AM + 'mutation', ['compound_step']),
+            (AM + 'structural', ['random_breaks', 'compound_step']),
+            (AM + 'mcmc', ['_homozygosity_probabilities', 'DenovoMCMC._mcmc', '_point_beta_probabilities', '_read_mean_dist']),
+            (AM + 'snpcalling', ['snp_posterior'])],
+    'C16': [('mchap.io.filter_alleles', ['parse_allele_filter', 'apply_allele_filter']),
+            ('mchap.io.loci', ['LocusPrior.from_variant_record']),
+            ('mchap.application.call_baseclass', ['program.loci']),
+            (CM + 'classes', ['GenotypeAllelesMultiTrace.relabel'])],
+    'C17': [(J, ['add_log_prob', 'ln_equivalent_permutations', 'comb', '_comb', '_greatest_common_denominatior']),
+            (PM + 'prior', ['set_allelic_dosage', 'set_parental_copies', 'set_complimentary_gamete', 'set_dosage_frequencies',
+                            'log_unknown_dosage_prior', 'dosage_permutations', 'set_initial_dosage', 'increment_dosage',
+                            'double_reduction_permutations', 'gamete_log_pmf', 'trio_log_pmf']),
+            (PM + 'validation', ['duo_valid', 'trio_valid']),
+            (PM + 'classes', ['_trace_incongruence'])],
+    'C18': [(J, LOGSPACE),
+            (PM + 'mcmc', ['sample_step', 'sample_children_matrix', 'parental_pair_markov_blankets', 'metropolis_hastings_probabilities',
+                           'gibbs_probabilities', 'allele_step', 'compound_step', 'pair_allele_swap_step', 'mcmc_sampler']),
+            (PM + 'prior', ['set_allelic_dosage', 'set_parental_copies', 'set_complimentary_gamete', 'set_dosage_frequencies',
+                            'log_unknown_dosage_prior', 'log_unknown_const_prior', 'dosage_permutations', 'set_initial_dosage',
+                            'increment_dosage', 'double_reduction_permutations', 'gamete_log_pmf', 'gamete_const_log_pmf',
+                            'gamete_allele_log_pmf', 'trio_log_pmf', 'markov_blanket_log_probability',
+                            'generic_markov_blanket_log_probability', 'trio_allele_log_pmf', 'markov_blanket_log_allele_probability']),
+            (PM + 'likelihood', ['log_likelihood_alleles_cached']),
+            (CM + 'utils', ['count_allele']),
+            (PM + 'classes', ['PedigreeCallingMCMC.fit'])],
+    'C19': [('mchap.application.find_snvs', ['_ord_to_index', 'bases_to_indices', '_count_alleles', 'bam_samples', 'bam_region_depths',
+                                             '_order_by', '_vcf_sort_alleles', '_order_as_vcf_alleles', 'format_allele_counts',
+                                             'format_samples_columns', 'write_vcf_block'])],
+    'C20': [('mchap.application.atomize', ['get_haplotype_snvs', 'format_snv_alleles', 'get_haplotype_snv_indices', 'get_sample_snv_ACP',
+                                           'format_allele_floats', 'get_sample_snv_GT', 'get_sample_snv_PQ', 'get_sample_snv_depth',
+                                           'format_vcf_snv_block', 'atomize_vcf'])],
 }
 
 
 def run(ctx, pid):
-    rule = f"R{pid[1:]}.H/helper-reference"
+    rule = f"R{pid[1:]}.H/reference-agreement"
     n = 0
     for mod, names in HELPERS.get(pid, ()):
         n += refspec.compare_module(ctx, mod, names, rule)
